@@ -386,7 +386,9 @@ func main() {
 		"x client {Go client, raw peer} x transport; fresh server per cell; every middleware takes state snapshots and fires a tokenised namespace broadcast while it holds the socket; " +
 		"distinct = (chain length, rejection position, kind, namespace, clients, client kind, transport) cells in which every client was judged. " +
 		"part 2: 0..3 event middlewares x rejecting position or none x 7 handler signatures x {Go client, raw peer} x namespace; one event in flight per socket; " +
-		"distinct = (signature, middleware count, rejecting position, client kind, verdict)")
+		"distinct = (signature, middleware count, rejecting position, client kind, verdict). " +
+		"part 3 (sampled, not exhaustive): 30..220 self-identifying events of one socket inside a chain of 2..3 event middlewares at the same time (first middleware slow for every second event, last one rejecting every fifth); " +
+		"admission under connection-state recovery {UseMiddlewares false,true} x CONNECT auth {none, made-up pid, made-up pid+offset, empty pid+offset} x middleware {rejecting, accepting}")
 	run.Assume("clients identify themselves through the CONNECT auth payload ({cid:n}); the middleware maps socket id -> client from the handshake",
 		"a broadcast whose Emit call returned before the last middleware of a socket returned cannot legitimately reach that socket (recipients are computed inside Emit)",
 		"absence of a broadcast at a raw peer is concluded after an acked fence event through namespace /fence on the same Engine.IO connection, sent after all Emit calls returned",
@@ -413,6 +415,7 @@ func main() {
 	// the shared quiescence wait, which then overlaps with part 1.
 	jobs = append(jobs, part2Jobs(run, race)...)
 	jobs = append(jobs, part1Jobs(run, race)...)
+	jobs = append(jobs, part3Jobs(run, race)...)
 	runPool(workers, jobs)
 	settleParked(run)
 	flushSamples(run)
